@@ -111,3 +111,20 @@ Proof.
   - rewrite <- (den_ast c e D). apply braces_block_parses; assumption.
   - apply model_evaluates_like_the_specification; assumption.
 Qed.
+
+(* bytes -> tokens -> program -> value: a source that spells a checked list of items (LexRound.v)
+   whose tokens are {{, the tokens of c, }} *)
+From TW Require Import LexRound.
+
+Theorem source_expression_evaluates its c e lb rb eof (en : env) fs :
+  source_ok its = true -> place (spell its) 0 its = lb :: flat c ++ [rb; eof] ->
+  wf c -> den c e -> lits_ok e -> (size e <= fs)%nat ->
+  ttype lb = T_LBRACES -> ttype rb = T_RBRACES -> ttype eof = T_EOF ->
+  parse_source (spell its) = ParsedOk (mkProgram [SExpr (compile e)] None [] [] []) /\
+  exists n, forall fm, (n <= fm)%nat ->
+    meets (eval_expr cx0 fm en (compile e)) (sem model_call_spec fs (flat_env en) e).
+Proof.
+  intros Hs Hp W D L S Hlb Hrb He.
+  destruct (braces_block_evaluates c e lb rb eof en fs W D L S Hlb Hrb He) as [P V].
+  split; [|exact V]. unfold parse_source. rewrite (lex_spell its Hs), Hp. exact P.
+Qed.
